@@ -32,7 +32,9 @@ TIMEOUT = {"quick": 1200, "thorough": 5400}
 def _pairings(spec, n, k):
     f = spec["family"]
     out = []
-    if f == "bch":
+    if f == "bch" and spec.get("info_kind") in ("left", "right"):
+        # the property pairs Berlekamp-Massey with BCH codes in "both information sets"; with an index-list
+        # information set the code is a column permutation of the cyclic code, which BM's syndromes do not follow
         out.append("bm")
     # Reed-Muller's calculate_syndrome is a brute-force search returning an n-long pattern, so the
     # syndrome table has up to 2^n keys and each probe costs 2^k: only tiny RM codes are paired.
@@ -47,45 +49,7 @@ def _pairings(spec, n, k):
     return out
 
 
-def _nk(spec):
-    f = spec["family"]
-    if f in ("generic",):
-        return spec["n"], spec["k"]
-    if f == "systematic":
-        return len(spec["P"]) + len(spec["P"][0]), len(spec["P"])
-    if f == "hamming":
-        mu = spec["mu"]
-        return 2**mu - (0 if spec["extended"] else 1), 2**mu - mu - 1
-    if f == "golay":
-        return (24 if spec["extended"] else 23), 12
-    if f == "repetition":
-        return spec["n"], 1
-    if f == "spc":
-        return spec["k"] + 1, spec["k"]
-    if f == "rm":
-        from math import comb
-
-        return 2 ** spec["m"], sum(comb(spec["m"], i) for i in range(spec["r"] + 1))
-    if f == "cyclic":
-        return spec["n"], spec["n"] - (spec["g"].bit_length() - 1)
-    if f == "cyclic_std":
-        return {"Hamming(7,4)": (7, 4), "Simplex(7,3)": (7, 3), "BCH(15,7)": (15, 11), "BCH(15,5)": (15, 5), "Golay(23,12)": (23, 12)}[spec["name"]]
-    if f == "bch":
-        from vk.oracles import gf2m
-
-        nn = 2 ** spec["mu"] - 1
-        cos = set()
-        for e in range(1, spec["delta"]):
-            cos.update(gf2m.cyclotomic_coset(e, nn))
-        return nn, nn - len(cos)
-    if f == "rs":
-        nn = 2 ** spec["mu"] - 1
-        return nn, nn - spec["delta"] + 1
-    if f == "ldpc":
-        H = gf2.rows_from_matrix(spec["H"])
-        nn = len(spec["H"][0])
-        return nn, nn - gf2.rank(H)
-    raise ValueError(f)
+_nk = cat.nk
 
 
 def units(tier, seed):
@@ -117,7 +81,8 @@ def units(tier, seed):
                 cost = 1 + 2 ** max(0, k - 6) / 4
             if dec.startswith("rm"):
                 cost = 2 + n / 8
-            out.append({"unit": f"{f}#{spec['id']}:{dec}", "spec": spec, "decoder": dec, "cost": cost})
+            # same class, same (n, k), same decoder kind: built and used one after the other in one process
+            out.append({"unit": f"{f}#{spec['id']}:{dec}", "spec": spec, "decoder": dec, "cost": cost, "group": f"{f}:{n}:{k}:{dec}"})
     return out
 
 
